@@ -258,7 +258,7 @@ def build_configs(tier, seed):
         add('tri2/sort_t=False/numbering%d' % pi, mesh='tri2', k=1, pt=renumbered('tri2', perm), mesh_kw=dict(sort_t=False),
             sub={'s0': [1]}, bnd={'b%d' % i: f for i, f in enumerate(fsubs[:6])})
     # quadrilaterals: cyclic shifts (a facet can be local facet 0 of one cell and local facet 1 of its neighbour)
-    for (r0, r1) in ([(0, 0), (1, 0), (1, 3), (2, 3)] if quick else [(a, b) for a in range(4) for b in range(4)]):
+    for (r0, r1) in [(a, b) for a in range(4) for b in range(4)]:
         subs, fsubs = tag_sets(2, 7, rng, quick)
         add('quad2/shift=%d%d/k=1' % (r0, r1), mesh='quad2', k=1, pt=shifted('quad2', (r0, r1)), sub={'s0': [0], 's1': [1], 's01': [0, 1]},
             bnd={'b%d' % i: f for i, f in enumerate(fsubs[:8] + [[f_] for f_ in range(7)])})
